@@ -33,6 +33,7 @@ type c11Case struct {
 	mult     float64
 	t5       time.Duration
 	atFirst  bool // the fault hits the very first generation (otherwise a second one)
+	cold     int  // active only: the first `cold` dials of the very first Open are refused (cold peer)
 }
 
 const (
@@ -106,8 +107,29 @@ func runC11(rt interface {
 		}
 		rt.Fatalf("C11 violated (%+v): %s\nhistory:\n  %s\ndial/listen log:\n  %s\nwire:\n%s", c, fmt.Sprintf(f, a...), strings.Join(hist, "\n  "), strings.Join(ev, "\n  "), wire.String())
 	}
+	if c.active && c.cold > 0 {
+		w.nw.RefuseNextDials(c.cold)
+	}
 	if err := w.conn.Open(context.Background(), hsms.OpenBackground); err != nil {
 		rt.Fatalf("VERIF-INFRA: open: %v", err)
+	}
+	// checkGaps compares the instants of consecutive attempts with the reference backoff sequence
+	checkGaps := func(what string, prev time.Time, tries []time.Time) {
+		delay := c.initial
+		prevGap := time.Duration(0)
+		for i, at := range tries {
+			want := min(delay, c.t5)
+			gap := at.Sub(prev)
+			if gap != want {
+				fail("%s: attempt %d came %v after the previous failure, the backoff prescribes %v (initial %v x%v, T5 %v)", what, i, gap, want, c.initial, c.mult, c.t5)
+			}
+			if gap < prevGap || gap > c.t5 || gap <= 0 {
+				fail("%s: backoff gap %v after %v: must be positive, non-decreasing and <= T5 %v", what, gap, prevGap, c.t5)
+			}
+			prevGap = gap
+			prev = at
+			delay, _ = fsm.Backoff(delay, c.mult, c.t5)
+		}
 	}
 	up := func() *netsim.Peer {
 		p, err := w.peerUp(10 * time.Second)
@@ -118,8 +140,34 @@ func runC11(rt interface {
 		p.SetAuto(true, false)
 		return p
 	}
+	coldChecked := false
+	coldCheck := func() {
+		if coldChecked || !c.active {
+			return
+		}
+		coldChecked = true
+		// the very first connect - even one that had to retry a cold peer - is not a reconnect, and
+		// its retries follow the same backoff schedule
+		var dials []time.Time
+		for _, e := range w.nw.Events() {
+			if e.Kind == "dial" {
+				dials = append(dials, e.At)
+			}
+		}
+		if len(dials) != c.cold+1 {
+			fail("cold start: %d dials for %d refusals + 1 success", len(dials), c.cold)
+		}
+		checkGaps("cold start", dials[0], dials[1:])
+		if n := w.conn.Metrics().Reconnects(); n != 0 {
+			fail("Reconnects()=%d after the very first connect (%d cold retries): the first Open is never a reconnect", n, c.cold)
+		}
+		if c.cold > 0 {
+			classes = append(classes, "c11:cold-start")
+		}
+	}
 	if !c.atFirst {
 		p := up()
+		coldCheck()
 		if sel, d, l := c11Exchange(w, p, true); !sel || !d || !l {
 			fail("the undisturbed first generation did not work (select=%v data=%v linktest=%v)", sel, d, l)
 		}
@@ -131,6 +179,7 @@ func runC11(rt interface {
 	}
 	p := up()
 	synctest.Wait()
+	coldCheck()
 	reconnectsBefore := w.conn.Metrics().Reconnects()
 	evIdx := len(w.nw.Events()) // dial/listen attempts from here on belong to the recovery
 	logf("faulted generation up")
@@ -253,25 +302,7 @@ func runC11(rt interface {
 	if len(tries) != c.refusals+1 {
 		fail("%d reconnect attempts after the fault, expected %d refused + 1 successful", len(tries), c.refusals)
 	}
-	delay := c.initial
-	prev := endAt
-	prevGap := time.Duration(0)
-	for i, at := range tries {
-		want := delay
-		if want > c.t5 {
-			want = c.t5
-		}
-		gap := at.Sub(prev)
-		if gap != want {
-			fail("attempt %d came %v after the previous failure, the backoff prescribes %v (initial %v x%v, T5 %v)", i, gap, want, c.initial, c.mult, c.t5)
-		}
-		if gap < prevGap || gap > c.t5 || gap <= 0 {
-			fail("backoff gap %v after %v: must be positive, non-decreasing and <= T5 %v", gap, prevGap, c.t5)
-		}
-		prevGap = gap
-		prev = at
-		delay, _ = fsm.Backoff(delay, c.mult, c.t5)
-	}
+	checkGaps("recovery", endAt, tries)
 	if c.active {
 		if d := w.conn.Metrics().Reconnects() - reconnectsBefore; d != 1 {
 			fail("Reconnects() grew by %d over one successful re-dial", d)
@@ -297,7 +328,7 @@ func runC11(rt interface {
 func rapid0(x int64) int64 { return x }
 
 func TestC11Recovery(t *testing.T) {
-	ev.Rule("(role, fault, refusals 0..8, backoff initial/multiplier/T5, faulted generation first or second): fault = reset after the peer wrote / read a drawn number of bytes of the connect-select-data-linktest exchange, peer close, unanswered select (T6), silent peer (T7), partial frame (T8), closed window (write timeout), dead linktest, Select.rsp status 2..255; then k refused dials / failed listens; oracle: every gap between attempts equals the ref/fsm.Backoff sequence exactly (virtual time), positive, non-decreasing, <= T5; the link is re-established, re-selected, a reply-expected round trip and a linktest work; Reconnects() +1 per successful re-dial (active); nothing is dialled or listened after Close; non-trivial = the fault lands after the first byte of an exchange, or k >= 2")
+	ev.Rule("(role, fault, refusals 0..8, backoff initial/multiplier/T5, faulted generation first or second): fault = reset after the peer wrote / read a drawn number of bytes of the connect-select-data-linktest exchange, peer close, unanswered select (T6), silent peer (T7), partial frame (T8), closed window (write timeout), dead linktest, Select.rsp status 2..255; then k refused dials / failed listens; active: 0-4 refused dials before the very first connection (cold start: same backoff schedule, Reconnects() stays 0); oracle: every gap between attempts equals the ref/fsm.Backoff sequence exactly (virtual time), positive, non-decreasing, <= T5; the link is re-established, re-selected, a reply-expected round trip and a linktest work; Reconnects() +1 per successful re-dial (active); nothing is dialled or listened after Close; non-trivial = the fault lands after the first byte of an exchange, or k >= 2")
 	vt.Bubble(t, func(t *testing.T) {
 		vt.CheckBubble(t, 4000, 200000, func(rt *rapid.T) {
 			c := c11Case{active: rapid.Bool().Draw(rt, "active")}
@@ -315,6 +346,9 @@ func TestC11Recovery(t *testing.T) {
 			c.mult = rapid.SampledFrom([]float64{1, 1.5, 2, 3, 10}).Draw(rt, "mult")
 			c.t5 = time.Duration(rapid.SampledFrom([]int{50, 150, 1000}).Draw(rt, "t5Ms")) * time.Millisecond
 			c.atFirst = rapid.Bool().Draw(rt, "atFirst")
+			if c.active {
+				c.cold = rapid.SampledFrom([]int{0, 0, 1, 2, 4}).Draw(rt, "cold")
+			}
 			cls, hist := runC11(rt, c)
 			ev.Case(c.offset > 0 || c.refusals >= 2, fmt.Sprintf("%+v", c), func() any { return map[string]any{"case": fmt.Sprintf("%+v", c), "history": hist} }, cls...)
 		})
